@@ -79,17 +79,6 @@ def run(ctx):
                 "expanded and a branch/jump, or raises in the pass; distinct by program hash + settings")
     rng = ctx.rng
     T = ctx.thorough
-    notes = H.probe_gate_findings()
-    exclude = set()
-    movs = True
-    if notes["F8"]:
-        # TEMPORARY: F8 (S/T expand to their adjoints) is C07's open defect on this tree
-        exclude |= {"vanilla.GateSInstruction", "vanilla.GateTInstruction"}
-        print("note: C08 oracle excludes S/T gates (F8 present in this tree; owned by C07)")
-    if notes["F9"]:
-        movs = False
-        print("note: C08 oracle excludes mov (F9: nv crot_y publishes an X-axis matrix; owned by C07)")
-
     def model(js, debug, hw):
         return {"op": "transpile.run", "debug": debug, "hw": hw, "is": js}
 
@@ -197,7 +186,7 @@ def run(ctx):
     for k in range(n_struct):
         nq = rng.choice([1, 2, 2, 3, 3, 4, 5])
         loads = rng.random() < 0.25
-        g = H.ProgGen(rng, nq, loads=loads, exclude=exclude, sdk_regs=rng.random() < 0.4, movs=movs)
+        g = H.ProgGen(rng, nq, loads=loads, sdk_regs=rng.random() < 0.4)
         js = g.program(rng.randrange(1, 7))
         for f in g.features:
             res.count("feature:" + f)
@@ -220,7 +209,7 @@ def run(ctx):
     for k in range(n_sdk):
         nq = 5  # the SDK's default NV hardware config: ids 0..4 (it relocates the electron on demand)
         try:
-            log, feats, rejected = H.sdk_program(rng, rng.choice([2, 3, 3]), no_st=notes["F8"])
+            log, feats, rejected = H.sdk_program(rng, rng.choice([2, 3, 3]))
         except Exception as e:  # harness trouble must not look like a violation
             res.count("sdk-harness-exception:" + type(e).__name__)
             continue
@@ -238,9 +227,6 @@ def run(ctx):
                                      "input": {"program": [before], "text": H.show(before)}})
         script = [rng.randrange(2) for _ in range(6)]
         st = H.random_state(rng, nq)
-        if notes["F9"] and any(j["c"] == "vanilla.MovInstruction" for sb in subs for j in sb):
-            res.count("oracle-skip:sdk-mov-under-F9")  # TEMPORARY, see the note printed above
-            continue
         r = H.oracle_compare(subs, nq, script, st)
         res.count("oracle:sdk")
         if r == "skip":
